@@ -158,6 +158,37 @@ Fixpoint as_fexpr (s : sx) : option fexpr :=
   | _ => None
   end.
 
+(* structured string-literal items on the wire:
+   ("p" c) plain   ("n" c) named escape \c   ("x" hi lo upper)   ("u" (hex digit chars))
+   ("c" x) control escape \^x   ("z" (whitespace chars)) *)
+Definition as_slitem (s : sx) : option slitem :=
+  match s with
+  | XL [XS k; XA z] =>
+    match as_N (XA z) with
+    | Some c => if opeq k "p" then Some (Plain c) else if opeq k "n" then Some (EscNamed c)
+                else if opeq k "c" then Some (EscCtrl c) else None
+    | None => None
+    end
+  | XL [XS k; XL l] =>
+    match as_Ns l with
+    | Some l => if opeq k "u" then Some (EscUni l) else if opeq k "z" then Some (EscZ l) else None
+    | None => None
+    end
+  | XL [XS k; hi; lo; up] =>
+    match as_N hi, as_N lo, as_N up with
+    | Some hi, Some lo, Some up => if opeq k "x" then Some (EscHex hi lo (negb (up =? 0))) else None
+    | _, _, _ => None
+    end
+  | _ => None
+  end.
+
+Fixpoint as_slitems (l : list sx) : option (list slitem) :=
+  match l with
+  | [] => Some []
+  | x :: r => match as_slitem x, as_slitems r with
+              | Some i, Some is => Some (i :: is) | _, _ => None end
+  end.
+
 Definition run_fmt : dispatcher := fun op args =>
   if opeq op "fmt-rat" then
     match args with
@@ -256,6 +287,17 @@ Definition run_fmt : dispatcher := fun op args =>
                 end)
         else Some sx_bad
       | _ => Some sx_bad
+      end
+    | _ => Some sx_bad
+    end
+  else if opeq op "strlit-spec" then
+    (* (strlit-spec term item ...) -> (wf (source text between the quotes) (denoted text)) *)
+    match args with
+    | term :: items =>
+      match as_N term, as_slitems items with
+      | Some term, Some its =>
+        Some (XL [sx_bool (wf_items term its); sx_Ns (show_items its); sx_Ns (denote_items its)])
+      | _, _ => Some sx_bad
       end
     | _ => Some sx_bad
     end
